@@ -14,9 +14,17 @@
 #define NL 3
 #define NE 48
 
+/*
+ * Every element carries TWO hooks: lists 1 and 2 are initialised with the
+ * offset of `n`, list 3 with the offset of `n2`, so that lists anchored at
+ * different offsets meet in swap (see harness/dlist.c).  An element is on at
+ * most one list at a time, so one link per element describes it.
+ */
 struct elem {
     int key;
     struct cstl_slist_node n;
+    long pad;
+    struct cstl_slist_node n2;
 };
 
 static struct cstl_slist lists[NL];
@@ -35,7 +43,7 @@ static long id_of_node(const struct cstl_slist_node * n)
         }
     }
     for (i = 0; i < NE; i++) {
-        if (n == &pool[i].n) {
+        if (n == &pool[i].n || n == &pool[i].n2) {
             return 10 + i;
         }
         if (n == &poisonv[i]) {
@@ -47,10 +55,15 @@ static long id_of_node(const struct cstl_slist_node * n)
 
 static long id_of_elem(const void * e)
 {
+    size_t d;
     if (e == NULL) {
         return 0;
     }
-    return id_of_node(&((const struct elem *)e)->n);
+    d = (size_t)((const char *)e - (const char *)pool);
+    if ((const char *)e < (const char *)pool || d >= sizeof(pool) || d % sizeof(struct elem) != 0) {
+        return -1;
+    }
+    return 10 + (long)(d / sizeof(struct elem));
 }
 
 static struct elem * elem_of(const char * s)
@@ -88,13 +101,13 @@ static void reset(void)
     int i;
     memset(pool, 0, sizeof(pool));
     for (i = 0; i < NL; i++) {
-        cstl_slist_init(&lists[i], offsetof(struct elem, n));
+        cstl_slist_init(&lists[i], i == 2 ? offsetof(struct elem, n2) : offsetof(struct elem, n));
     }
 }
 
 static int cmp_elem(const void * a, const void * b, void * p)
 {
-    (void)p;
+    h_priv_check(p, 1);
     return (((const struct elem *)a)->key > ((const struct elem *)b)->key)
            - (((const struct elem *)a)->key < ((const struct elem *)b)->key);
 }
@@ -104,7 +117,7 @@ static int nvisited, stop_at;
 
 static int visit(void * e, void * p)
 {
-    (void)p;
+    h_priv_check(p, 2);
     if (nvisited < NE) {
         visited[nvisited] = id_of_elem(e);
     }
@@ -118,8 +131,8 @@ static void clr(void * e, void * p)
     if (nvisited < NE) {
         visited[nvisited++] = id_of_elem(e);
     }
-    /* the callee owns the element now: overwrite its link */
-    el->n.n = &poisonv[el - pool];
+    /* the callee owns the element now: overwrite its links */
+    el->n.n = el->n2.n = &poisonv[el - pool];
 }
 
 static void print_visited(void)
@@ -170,7 +183,7 @@ static void op(int argc, char ** argv)
         cstl_slist_reverse(l);
         outf("ok");
     } else if (!strcmp(o, "sort") && argc == 2 && l) {
-        cstl_slist_sort(l, cmp_elem, NULL);
+        cstl_slist_sort(l, cmp_elem, H_PRIV(1));
         outf("ok");
     } else if (!strcmp(o, "concat") && argc == 3 && l && list_of(argv[2]) && l != list_of(argv[2])) {
         cstl_slist_concat(l, list_of(argv[2]));
@@ -182,7 +195,7 @@ static void op(int argc, char ** argv)
         int r;
         nvisited = 0;
         stop_at = (int)h_int(argv[2]);
-        r = cstl_slist_foreach(l, visit, NULL);
+        r = cstl_slist_foreach(l, visit, H_PRIV(2));
         outf("%d ", r);
         print_visited();
     } else if (!strcmp(o, "clear") && argc == 2 && l) {
@@ -194,7 +207,7 @@ static void op(int argc, char ** argv)
             int i, okp = 1;
             for (i = 0; i < nvisited && i < NE; i++) {
                 long id = visited[i];
-                if (id >= 10 && id < 10 + NE && pool[id - 10].n.n != &poisonv[id - 10]) {
+                if (id >= 10 && id < 10 + NE && (pool[id - 10].n.n != &poisonv[id - 10] || pool[id - 10].n2.n != &poisonv[id - 10])) {
                     okp = 0;
                 }
             }
